@@ -96,7 +96,7 @@ func Model(r *rand.Rand, opt ModelOpt) *openfgav1.AuthorizationModel {
 	for _, o := range objs {
 		td := &openfgav1.TypeDefinition{Type: o, Relations: map[string]*openfgav1.Userset{}, Metadata: &openfgav1.Metadata{Relations: map[string]*openfgav1.RelationMetadata{}}}
 		var prefs []*openfgav1.RelationReference
-		np := 1 + r.Intn(2)
+		np := 1 + r.Intn(3)
 		perm := r.Perm(len(objs))
 		for i := 0; i < np && i < len(objs); i++ {
 			ref := RefType(objs[perm[i]])
@@ -105,13 +105,16 @@ func Model(r *rand.Rand, opt ModelOpt) *openfgav1.AuthorizationModel {
 			}
 			prefs = append(prefs, ref)
 		}
-		if opt.Conditions && r.Intn(5) == 0 {
-			// the same parent type twice, once conditioned
-			dup := RefType(prefs[0].GetType())
-			if prefs[0].GetCondition() == "" {
+		if r.Intn(4) == 0 {
+			// the same parent type twice (differently conditioned when conditions are wanted), anywhere in the
+			// list - in particular before a different parent type
+			src := prefs[r.Intn(len(prefs))]
+			dup := RefType(src.GetType())
+			if opt.Conditions && src.GetCondition() == "" {
 				dup.Condition = "c2"
 			}
-			prefs = append(prefs, dup)
+			pos := r.Intn(len(prefs) + 1)
+			prefs = append(prefs[:pos], append([]*openfgav1.RelationReference{dup}, prefs[pos:]...)...)
 		}
 		td.Relations["p"] = This()
 		td.Metadata.Relations["p"] = &openfgav1.RelationMetadata{DirectlyRelatedUserTypes: prefs}
@@ -179,7 +182,11 @@ func (g *mgen) children(n, depth int, rels []string, hasThis *bool, self string)
 	for tries := 0; len(ch) < n && tries < 50; tries++ {
 		c := g.userset(depth, rels, hasThis, self)
 		key := PPUserset(c)
-		if seen[key] && !g.opt.FreeThis {
+		// DESIGN §7-b: at most one `this` and no two identical TTUs under one operator (the builder merges their
+		// edges, after which "operand" is no longer defined). Repeated computed operands and repeated nested
+		// operators are legitimate and wanted (C10: "repeated operands").
+		mergeable := key == "this" || (c.GetTupleToUserset() != nil)
+		if seen[key] && mergeable && !g.opt.FreeThis {
 			continue
 		}
 		seen[key] = true
